@@ -328,7 +328,7 @@ macro_rules! io_harness {
         #[kani::stub(crate::net::EventLoops::wait_read_event, s_wait_event)]
         #[kani::stub(crate::net::EventLoops::wait_write_event, s_wait_event)]
         fn $name() {
-            $body
+            $body;
             crate::verif_env::canary();
         }
     };
